@@ -17,3 +17,5 @@ mod c08_decoders;
 mod c11_cookies;
 #[cfg(kani)]
 mod c13_basicauth;
+#[cfg(kani)]
+mod c02_request;
